@@ -140,6 +140,23 @@ type Contracts struct {
 	files  []string
 }
 
+// specTier: in the thorough tier a spec function named <name>Thorough replaces <name> (a fuller
+// relation whose proof needs the thorough time-outs).
+var specTier string
+
+func (c *Contracts) spec(name string) (*SpecFunc, bool) {
+	if c == nil {
+		return nil, false
+	}
+	if specTier == "thorough" {
+		if sf, ok := c.specs[name+"Thorough"]; ok {
+			return sf, true
+		}
+	}
+	sf, ok := c.specs[name]
+	return sf, ok
+}
+
 func (c *Contracts) forFunc(fn *ssa.Function) *FuncContract {
 	if c == nil {
 		return nil
